@@ -1415,3 +1415,70 @@ def c13(ctx):
                        "unsigned decimal; true/false/t/f/0/1; hex array literals, short literals, empty), IOArg.Set under 2 Go-type variants (exact-size and "
                        "64-bit Go integers, []byte, nil; fresh and reused result), InputSizes + InstantiateWithSizes + Parse for the unsized variant of each "
                        "member, mpc.Result twice per member with the argument compared before and after; non-trivial = >= 2 members")
+
+
+# ---------------------------------------------------------------------- C14
+CIRCFILE_CFG = """SPECIFICATION Spec
+CONSTANTS
+  MaxWires = %d
+  MaxGates = %d
+  MaxRecords = %d
+  Ops = %s
+  InShapes <- ShapesIn
+  OutShapes <- ShapesOut
+  Format = "%s"
+  CheckGateIndex = %s
+%s
+CHECK_DEADLOCK FALSE
+"""
+
+
+@prop("C14")
+def c14(ctx):
+    thorough = ctx.tier == "thorough"
+    ctx.build()
+    ctx.assumptions += ["CircFile.tla models files at the level of declared counts, I/O sizes and gate records (every structural corruption over a "
+                        "small alphabet); byte-level corruption (truncation, extension, bit flips, field splices, boundary counts) is driven by the "
+                        "harness and judged by the property alone: error, or a circuit that passes the well-formedness check, within 10 s",
+                        "declared sizes above a million are outside the property and skipped",
+                        "the Bristol format carries only sizes: names, types and compound members are compared for the native format only",
+                        "a gate may write a wire that is already assigned (both parsers allow it)"]
+    # (M) the parser as a transition system over all small files
+    for fmt in ("mpclc", "bristol"):
+        r = ctx.tlc_expect_ok("CircFileGen", "CircFile_mc.cfg", name="circfile-mc-" + fmt, timeout=3000,
+                              cfg_text=CIRCFILE_CFG % (2, 2, 2, '{"XOR", "INV"}', fmt, "TRUE", "INVARIANT Safety\nPROPERTY Terminates"))
+    if thorough:
+        ctx.tlc_expect_ok("CircFileGen", "CircFile_mc.cfg", name="circfile-mc-3", timeout=3400, heap="16g",
+                          cfg_text=CIRCFILE_CFG % (3, 2, 2, '{"XOR", "AND", "INV"}', "mpclc", "TRUE", "INVARIANT Safety"))
+    r = ctx.tlc("CircFileGen", "CircFile_mc.cfg", name="circfile-guard",
+                cfg_text=CIRCFILE_CFG % (2, 2, 2, '{"XOR", "INV"}', "mpclc", "FALSE", "INVARIANT Safety"))
+    if r["status"] != "invariant":
+        raise Broken("CircFile.tla does not reject a parser without the gate-index check")
+    ctx.cov["spec_rejects_deviations"] = ["no-gate-index-check"]
+    # (G) every file with the model's verdict through the real parsers
+    for fmt in ("mpclc", "bristol"):
+        g = ctx.tlc("CircFileGen", "CircFile_gen.cfg", mode="gen", name="circfile-gen-" + fmt, timeout=3000,
+                    cfg_text=CIRCFILE_CFG % (3 if thorough else 2, 2, 2, '{"XOR", "INV"}', fmt, "TRUE", "CONSTRAINT Emit"))
+        if g["status"] != "ok" or not g["cases"]:
+            raise Broken("CircFileGen failed: %s\n%s" % (g["status"], g["out"][-2000:]))
+        cf = os.path.join(ctx.tmp, "c14cases-%s.ndjson" % fmt)
+        write_ndjson(cf, g["cases"])
+        rf = os.path.join(ctx.tmp, "c14res-%s.ndjson" % fmt)
+        ctx.run_vh(["c14", "replay", cf, rf, fmt], timeout=3400)
+        n = ctx.absorb(rf)
+        ctx.cov["traces_validated_against_impl"] += n
+        ctx.cov["files_" + fmt] = n
+    # round trips of rich signatures and compiled programs
+    rt = os.path.join(ctx.tmp, "c14rt.ndjson")
+    ctx.run_vh(["c14", "roundtrip", rt, 1500 if thorough else 240], timeout=3400)
+    ctx.absorb(rt)
+    # byte-level corruption
+    mu = os.path.join(ctx.tmp, "c14mut.ndjson")
+    ctx.run_vh(["c14", "mutate", mu, 40000 if thorough else 3000], timeout=3400)
+    ctx.absorb(mu)
+    if ctx.drift:
+        raise Broken("MODEL-DRIFT: the real parsers and CircFile.tla disagree on verdicts that the property does not decide:\n  " + "\n  ".join(ctx.drift[:10]))
+    ctx.cov["rule"] = ("one evaluation = one file given to a real parser: every file of the CircFile.tla alphabet in both formats with the modelled verdict "
+                       "(accepted files compared gate by gate and re-marshalled byte for byte), Marshal/Parse/Marshal of generated signatures (empty, "
+                       "long and non-ASCII names, all scalar types, nested arrays, struct arguments with compound members, headers and names longer "
+                       "than the parser's buffer, INV-only circuits) and of compiled programs, and mutated valid files; non-trivial = >= 2 gate records")
